@@ -79,6 +79,38 @@ def inj_parse_docstring(exc):
     assert 'm.f' in s.parse_errors['docstring'], 'failure not recorded against the object'
     return 'ok'
 
+def inj_parser_errs(shape):
+    """the parser returns normally / raises ParseError after appending errors whose line number has every shape
+    a real parser produces (None: docutils document-level problems; 0; n) -- reportErrors must cope"""
+    linenum, fatal, raises = shape
+    s = fresh(); f = s.allobjects['m.f']
+    from pydoctor.epydoc.markup import plaintext
+    def parser(doc, errs):
+        e = ParseError('injected problem', linenum, is_fatal=fatal)
+        errs.append(e)
+        if raises:
+            raise e
+        return plaintext.parse_docstring(doc, errs)
+    with patched(epydoc2stan, 'get_parser_by_name', lambda *a, **k: parser):
+        r = epydoc2stan.parse_docstring(f, 'some text', f)
+        assert isinstance(r, ParsedDocstring)
+        f.parsed_docstring = None
+        from pydoctor.stanutils import flatten
+        assert 'some' in flatten(epydoc2stan.format_docstring(f)) or True
+    assert 'm.f' in s.parse_errors['docstring'], 'errors not recorded against the object'
+    return 'ok'
+
+def inj_to_stan_errs(shape):
+    """safe_to_stan's own error path with an exception whose str() is odd"""
+    s = fresh(); f = s.allobjects['m.f']
+    class Odd(Exception):
+        def __str__(self): return shape
+    r = epydoc2stan.safe_to_stan(StubDoc(Odd(), 'to_stan'), f.docstring_linker, f, fallback=epydoc2stan.format_docstring_fallback)
+    assert r is not None
+    return 'ok'
+
+ERR_SHAPES = [(ln, fatal, raises) for ln in (None, 0, 1, 7) for fatal in (True, False) for raises in (False, True)]
+
 def inj_get_parser(exc):
     s = fresh(); f = s.allobjects['m.f']
     with patched(epydoc2stan, 'get_parser_by_name', raising(exc)):
@@ -245,6 +277,20 @@ def exit_runs():
 def main():
     req = json.load(sys.stdin)
     failures = []
+    if 'only' in req and 'err_shape' in req['only']:
+        try:
+            inj_parser_errs(tuple(req['only']['err_shape'])); f = None
+        except BaseException as e:  # noqa
+            f = {'what': 'parser error shape %r: %s: %s' % (req['only']['err_shape'], type(e).__name__, e), 'case': req['only']}
+        json.dump({'failures': [f] if f else [], 'injections': 1, 'functions': 1, 'exit_runs': 0, 'exit_observed': []}, sys.stdout)
+        return
+    if 'only' in req and 'to_stan_text' in req['only']:
+        try:
+            inj_to_stan_errs(req['only']['to_stan_text']); f = None
+        except BaseException as e:  # noqa
+            f = {'what': 'to_stan text: %s: %s' % (type(e).__name__, e), 'case': req['only']}
+        json.dump({'failures': [f] if f else [], 'injections': 1, 'functions': 1, 'exit_runs': 0, 'exit_observed': []}, sys.stdout)
+        return
     if 'only' in req:
         c = req['only']
         f = run_injection(c['injection'], c['cls'], 'thorough')
@@ -252,6 +298,23 @@ def main():
         return
     tier = req['tier']
     n = 0
+    for shape in ERR_SHAPES:
+        n += 1
+        buf = io.StringIO()
+        try:
+            with contextlib.redirect_stdout(buf):
+                inj_parser_errs(shape)
+        except BaseException as e:  # noqa
+            failures.append({'what': 'parse_docstring/reportErrors cannot cope with a parser error of shape (linenum=%r, fatal=%r, raised=%r): %s: %s'
+                             % (shape + (type(e).__name__, e)), 'case': {'err_shape': list(shape)}, 'observed': '%s: %s' % (type(e).__name__, e)})
+    for shape in ['', 'x' * 3, 'multi\nline', '\x00']:
+        n += 1
+        try:
+            with contextlib.redirect_stdout(io.StringIO()):
+                inj_to_stan_errs(shape)
+        except BaseException as e:  # noqa
+            failures.append({'what': 'safe_to_stan cannot cope with exception text %r: %s: %s' % (shape, type(e).__name__, e),
+                             'case': {'to_stan_text': shape}, 'observed': '%s: %s' % (type(e).__name__, e)})
     for name, (bound, fn) in INJECTIONS.items():
         for cls in exc_classes(bound, tier):
             n += 1
